@@ -6,6 +6,7 @@ position table by Chebyshev / Manhattan distance.
 """
 import itertools
 import math
+import sys
 
 from mc.engine import hbfs, par
 from mc.engine.report import Violation
@@ -27,7 +28,7 @@ META = {
                  'large worlds': '7x7x7 and 20x18 (thorough 9x8x7, line 600): 27 / 9 / 3 centres (corners, face centres, '
                                  'centre, one off-centre) with radii that give clipped blocks of several hundred cells',
                  'repeat': 'every answer is vandalised by the caller and the same question asked again',
-                 'radius': '0 .. max extent + 1', 'kinds': ['moore', 'neumann'], 'ret_type': ['int', 'tuple'],
+                 'radius': '0 .. max extent + 1, 2^31, sys.maxsize', 'kinds': ['moore', 'neumann'], 'ret_type': ['int', 'tuple'],
                  'incl_center': [False, True],
                  'entry points': ['get_moore_neighbours / get_neumann_neighbours', 'get_neighbours(mode=...)']},
     'bounds': {'quick': '64 generic shapes + 5 lines + 4 grids', 'thorough': '125 generic shapes + 8 lines + 9 grids'},
@@ -68,7 +69,7 @@ def check_shape(case):
     d3 = list(dims) + [0] * (3 - len(dims))
     rmax = max(max(d3), 1) + 1
     centres = list(enumerate(table))
-    radii = list(range(0, rmax + 1))
+    radii = list(range(0, rmax + 1)) + [2 ** 31, sys.maxsize]       # "unbounded" radii: the whole grid
     if case.get('big'):
         # large worlds: corners, face centres, the centre and one off-centre cell, radii that make big clipped blocks
         ext = [max(e, 1) for e in d3]
